@@ -23,7 +23,7 @@ PY_SUCC = "PyLibSucc PySrcSucc PySrcSuccFacts PySrcSuccCtl PySrcSuccCtlFacts"   
 PY_API = PY_SCCMAIN + " PyLibBlocks PySrcSdBlocks PySrcSdBlocksFacts PySrcApi PySrcEndToEndScc PySrcEndToEndBlocks"     # public methods expand_scc / expand_block / build; expand_source_blocks
 PY_CONTROL = "PyLib PyLibSd PyLibPerc PyLibCore PyLibControl PySrcControl PySrcControlFacts PySrcFindDriversFacts PySrcControlCorollaries"    # control.find_drivers, drivers_of_succession
 PY_ASEEDS = PY_MIN + " Candidates Blocks ASeeds PySrcSdASeeds PySrcSdASeedsFacts"     # _sd_algorithms/expand_attractor_seeds.py
-EXTRA_IMPORTS = {"C02": PY_SD + " " + PY_CORE2 + " PySrcEndToEnd", "C01": PY_API, "C03": PY_SD + " " + PY_ASEEDS + " PySrcComplFacts " + PY_API + " " + PY_GETTERS, "C04": PY_SD + " " + PY_CORE, "C05": PY_CORE2 + " " + PY_MIN, "C13": PY_SD + " " + PY_TARGET + " " + PY_ASEEDS + " PySrcTermFacts " + PY_API, "C14": PY_CORE2 + " " + PY_SCC, "C15": PY_SD + " " + PY_TARGET + " " + PY_ASEEDS, "C16": "PyLib PyLibPickle PySrcPickle PySrcPickleFacts " + PY_CORE2,
+EXTRA_IMPORTS = {"C17": "Names NamesFacts PySrcNames PySrcNamesFacts", "C02": PY_SD + " " + PY_CORE2 + " PySrcEndToEnd", "C01": PY_API, "C03": PY_SD + " " + PY_ASEEDS + " PySrcComplFacts " + PY_API + " " + PY_GETTERS, "C04": PY_SD + " " + PY_CORE, "C05": PY_CORE2 + " " + PY_MIN, "C13": PY_SD + " " + PY_TARGET + " " + PY_ASEEDS + " PySrcTermFacts " + PY_API, "C14": PY_CORE2 + " " + PY_SCC, "C15": PY_SD + " " + PY_TARGET + " " + PY_ASEEDS, "C16": "PyLib PyLibPickle PySrcPickle PySrcPickleFacts " + PY_CORE2,
                  "C06": PY_SPACE + " " + PY_TARGET + " PySrcEndToEndControl " + PY_CONTROL + " " + PY_SUCC, "C07": PY_CONTROL + " PyLibSd2 PySrcSdBase PySrcSdTarget PySrcSdTargetFacts " + PY_SUCC, "C10": PY_PLACE, "C11": PY_PERC, "C19": PY_SD + " " + PY_CORE, "C20": PY_KEY + " " + PY_CORE2 + " PyLibSd PyLibPerc PySrcIso PySrcIsoFacts " + PY_GETTERS}
 
 def imports_for(pid):
@@ -521,7 +521,9 @@ position-preserving (so the dynamics is untouched), idempotent; place names roun
 formal record of the repaired defect D16 (a name ending in a newline passed the `$` test).  The model's output is
 compared with the code's on every run.  PARTIAL: the text formats (bnet / aeon / sbml) are AEON's parsers and are
 covered by the metamorphic run only.""",
- theorems=[("equiv_trap_space", "equiv_trap_space", None), ("equiv_percolate", "equiv_percolate", None), ("equiv_max_traps", "equiv_max_traps", None),
+ theorems=[("source_sanitize_network_names", "py_sanitize_spec", "translator tie: the function GENERATED from the current text of petri_net_translation.sanitize_network_names (PySrcNames.v: skeleton checked statement by statement, validity test and substitution read from the regular expressions) returns what the model's Names.sanitize returns (to which sanitize_total / _valid / _nodup / _fixes_valid below apply)"),
+           ("source_sanitize_check_only", "py_sanitize_check_only_spec", "with check_only=True it raises exactly when some name is invalid and otherwise returns the names unchanged"),
+           ("equiv_trap_space", "equiv_trap_space", None), ("equiv_percolate", "equiv_percolate", None), ("equiv_max_traps", "equiv_max_traps", None),
            ("equiv_min_traps", "equiv_min_traps", None), ("equiv_attractor", "equiv_attractor", None),
            ("flip_trap_space", "flip_trap_space", None), ("flip_percolate", "flip_percolate", None), ("flip_min_trap", "flip_min_trap", None),
            ("flip_max_trap", "flip_max_trap", None), ("flip_attractor", "flip_attractor_weak", "attractors, restricted to well-formed states"),
